@@ -223,6 +223,38 @@ theorem never_two_loops (env : Env) (ops : List Op) :
 
 /-! ## Close leaves a clean device when nothing failed -/
 
+/-- **consistent_step** (per state).  From ANY state whose device state is consistent (and
+whose loaded description, if any, is complete), with the complete description on the device:
+every call either has a failing effect, or leaves the device state consistent again —
+whatever the call returns (Ok, a refusal such as InStreaming / GenApiContextMissing, or the
+`cap = 0` panic). -/
+theorem consistent_step (env : Env) (hx : env.xml = Xml.full) (op : Op) (s : State)
+    (hs : Good s.dev) :
+    ∃ seg, (step env op s).2.trace = s.trace ++ seg ∧ (AllOk seg → Good (step env op s).2.dev) :=
+  triple_snd (good_call (t0 := s.trace) env hx op) ⟨[], by simp, fun _ => hs⟩
+
+/-- **close_clean** (per state).  From ANY state with a consistent device state, whatever
+happened before: if no device/stream operation fails during `close` itself, `close` returns
+`Ok`, and afterwards the loop is stopped, no loop is alive, TLParamsLocked is 0, the stream is
+disabled, the device is not acquiring, both handles are closed and the register cache is
+empty. -/
+theorem close_clean_from_consistent (env : Env) (s : State) (hs : Good s.dev) :
+    ∃ seg, (step env .close s).2.trace = s.trace ++ seg ∧
+      (AllOk seg → (step env .close s).1 = .ok () ∧ Clean (step env .close s).2.dev) := by
+  obtain ⟨h1, h2, h3⟩ := good_closeCam (t0 := s.trace) env s ⟨[], by simp, fun _ => hs⟩
+  rcases hr : call env .close s with ⟨res, s'⟩
+  simp only [step, hr]
+  cases res with
+  | ok a =>
+    obtain ⟨seg, ht, hB⟩ := h1 a s' hr
+    exact ⟨seg, ht, fun hall => ⟨rfl, (hB hall).2⟩⟩
+  | err e =>
+    obtain ⟨seg, ht, hB⟩ := h2 e s' hr
+    exact ⟨seg, ht, fun hall => (hB hall).elim⟩
+  | panic =>
+    obtain ⟨seg, ht, hB⟩ := h3 s' hr
+    exact ⟨seg, ht, fun hall => (hB hall).elim⟩
+
 /-- **consistent_without_failure**.  With the complete description on the device, after every
 call sequence in which no device/stream operation failed (every effect in the trace is `ok`;
 calls may still have been refused with InStreaming / GenApiContextMissing, or panicked on
@@ -231,7 +263,9 @@ theorem consistent_without_failure (env : Env) (hx : env.xml = Xml.full) (ops : 
     let s := runOps env ops State.init
     AllOk s.trace → Consistent s.dev := by
   intro s hall
-  exact (good_runOps env hx ops State.init good_init hall).1
+  obtain ⟨seg, ht, hB⟩ := good_runOps env hx ops State.init good_init
+  rw [List.nil_append] at ht
+  exact (hB (ht ▸ hall)).1
 
 /-- **close_clean**.  With the complete description on the device, for every call sequence
 `ops` followed by `close`, under every fault plan: if no device/stream operation failed in the
@@ -243,15 +277,66 @@ theorem close_clean (env : Env) (hx : env.xml = Xml.full) (ops : List Op) :
     let r := step env .close s
     AllOk r.2.trace → r.1 = .ok () ∧ Clean r.2.dev := by
   intro s r hall
-  have hs : OkP Good s := good_runOps env hx ops State.init good_init
+  have hs : OkP [] Good s := good_runOps env hx ops State.init good_init
   obtain ⟨h1, h2, h3⟩ := good_closeCam env s hs
   rcases hr : call env .close s with ⟨res, s'⟩
   have hr' : r = (res, s') := hr
   rw [hr'] at hall ⊢
   cases res with
-  | ok a => exact ⟨rfl, (h1 a s' hr hall).2⟩
-  | err e => exact (h2 e s' hr hall).elim
-  | panic => exact (h3 s' hr hall).elim
+  | ok a =>
+    obtain ⟨seg, ht, hB⟩ := h1 a s' hr
+    rw [List.nil_append] at ht
+    exact ⟨rfl, (hB (ht ▸ hall)).2⟩
+  | err e =>
+    obtain ⟨seg, ht, hB⟩ := h2 e s' hr
+    rw [List.nil_append] at ht
+    exact (hB (ht ▸ hall)).elim
+  | panic =>
+    obtain ⟨seg, ht, hB⟩ := h3 s' hr
+    rw [List.nil_append] at ht
+    exact (hB (ht ▸ hall)).elim
+
+/-! ## The whole trace follows the acquisition protocol -/
+
+/-- **global_protocol_order**.  In the complete effect trace of EVERY call sequence under EVERY
+fault plan (and every description, both failed-stop behaviours), every attempt of a protocol
+step — successful or failing — comes directly after its required predecessors, all successful
+(`requiredBefore`): TLParamsLocked := 1 directly after enable_streaming; AcquisitionStart
+directly after enable, TLParamsLocked := 1; loop start directly after enable,
+TLParamsLocked := 1, AcquisitionStart; AcquisitionStop directly after the loop stop;
+TLParamsLocked := 0 directly after loop stop, AcquisitionStop; disable_streaming directly after
+loop stop, AcquisitionStop, TLParamsLocked := 0. -/
+theorem global_protocol_order (env : Env) (ops : List Op) :
+    ProtocolOrdered (runOps env ops State.init).trace :=
+  (ord_runOps env ops State.init ord_init).1
+
+/-- Reading of `global_protocol_order` for the receive loop: wherever a loop start is attempted
+in the trace, the three effects directly before it are enable ok, TLParamsLocked := 1 ok,
+AcquisitionStart ok. -/
+theorem loop_start_only_after_acquisition_start (env : Env) (ops : List Op)
+    (pre post : List Effect) (o : Out)
+    (h : (runOps env ops State.init).trace = pre ++ ⟨.loopStart, o⟩ :: post) :
+    ∃ pre', pre = pre' ++ [⟨.enable, .ok⟩, ⟨.lockSet 1, .ok⟩, ⟨.acqStart, .ok⟩] :=
+  global_protocol_order env ops pre ⟨.loopStart, o⟩ post h
+
+/-- Reading for the stop side: wherever disable_streaming is attempted, the three effects
+directly before it are loop stop ok, AcquisitionStop ok, TLParamsLocked := 0 ok. -/
+theorem disable_only_after_stop_protocol (env : Env) (ops : List Op)
+    (pre post : List Effect) (o : Out)
+    (h : (runOps env ops State.init).trace = pre ++ ⟨.disable, o⟩ :: post) :
+    ∃ pre', pre = pre' ++ [⟨.loopStop, .ok⟩, ⟨.acqStop, .ok⟩, ⟨.lockSet 0, .ok⟩] :=
+  global_protocol_order env ops pre ⟨.disable, o⟩ post h
+
+/-! ## The device-visible state is determined by the effect trace -/
+
+/-- **device_state_is_trace_replay**.  After every call sequence under every fault plan, what
+the model says the device and the handles hold (control/stream handle open, streaming enabled,
+TLParamsLocked, acquiring) is exactly the replay of the effect trace: successful effects
+applied in order, failed effects changing nothing.  So every statement above about these state
+components (`Clean`, `Consistent`, …) is a statement about the device-visible effects. -/
+theorem device_state_is_trace_replay (env : Env) (ops : List Op) :
+    (runOps env ops State.init).dev.visible = visibleOf (runOps env ops State.init).trace :=
+  vis_runOps env ops State.init rfl
 
 /-! ## Exact device state after a successful start / stop (every state, every fault plan) -/
 
@@ -298,6 +383,14 @@ example : Clean (runOps envOk [.open, .load, .param, .start 3, .close] State.ini
 
 example : AllOk (runOps envOk [.open, .load, .param, .start 3, .close] State.init).trace := by
   unfold AllOk; decide
+
+-- `Good` (hypothesis of consistent_step / close_clean_from_consistent) holds while streaming
+example : Good (runOps envOk [.open, .load, .param, .start 3] State.init).dev := by
+  unfold Good Consistent FlagTracksLoop CtxtOk; decide
+
+example : visibleOf (runOps envOk [.open, .load, .start 3] State.init).trace =
+    { ctrlOpen := true, strmOpen := true, enabled := true, lock := 1, acquiring := true } := by
+  decide
 
 -- the cache really was non-empty before the close
 example : (runOps envOk [.open, .load, .param, .start 3] State.init).dev.cache =
